@@ -16,6 +16,12 @@ func bitmapMultiPolygon(zoom uint8, multipolygon orb.MultiPolygon) (*roaring64.B
 		for _, ring := range polygon {
 			boundaryTiles, _ := tilecover.Geometry(orb.LineString(ring), maptile.Zoom(zoom)) // TODO is this buffer-aware?
 			for tile := range boundaryTiles {
+				// the cover of an edge that runs along the boundary of the world may step outside the grid
+				// (column 2^zoom in the east, column/row -1 = 4294967295 in the west/north), which ZxyToID
+				// would fold onto the opposite edge of the map
+				if zoom < 32 && (tile.X>>zoom != 0 || tile.Y>>zoom != 0) {
+					continue
+				}
 				boundarySet.Add(ZxyToID(uint8(tile.Z), tile.X, tile.Y))
 			}
 		}
